@@ -192,11 +192,12 @@ def St.moveToCache (s : St) (p : Path) (a : Addr) : St × Out :=
     (((s.setWs p none).setCache a none), .panic)
   | none => (s, .panic)
 
-/-- unlinking a cache object after `set_writable`: the `chmod` acts on the inode, so every workspace
-    hard link of the object becomes a writable, independent regular file -/
+/-- unlinking a cache object (`XvcCachePath::remove`; on unix the file's mode is left alone, a `chmod`
+    would act on the inode and so on every other hard link of it): every workspace hard link of the
+    object becomes an independent regular file, still read-only -/
 def St.detach (s : St) (a : Addr) : St :=
   { s with ws := fun p => match s.ws p with
-      | some (.file b w st (some a')) => if a' = a then some (.file b true st none) else some (.file b w st (some a'))
+      | some (.file b w st (some a')) => if a' = a then some (.file b w st none) else some (.file b w st (some a'))
       | e => e }
 
 /-- the closure `copy_path_to_cache_and_recheck` of `carry_in` for one entity -/
